@@ -1,6 +1,10 @@
 package main
 
 import (
+	"bytes"
+	"encoding/json"
+	"github.com/tobgu/qframe"
+	"github.com/tobgu/qframe/config/newqf"
 	"math"
 	"strconv"
 )
@@ -146,6 +150,7 @@ func (g *Gen) readSchedule(docLen int) []int {
 }
 
 func genC13(g *Gen) {
+	g.sizeSweep("csv")
 	sizes := []int{0, 1, 2, 3, 6, 12, 30, 90}
 	if g.thorough() {
 		sizes = append(sizes, 300, 1200)
@@ -188,6 +193,7 @@ func genC13(g *Gen) {
 }
 
 func genC14(g *Gen) {
+	g.sizeSweep("json")
 	sizes := []int{0, 1, 2, 3, 6, 12, 30}
 	if g.thorough() {
 		sizes = append(sizes, 100, 300)
@@ -692,41 +698,105 @@ func (g *Gen) indexArrangements() {
 			if n > 4 && !g.thorough() && g.rng.Intn(n*n-13) != 0 { // 5: 1/12, 6: 1/23
 				continue
 			}
-			g.begin("index arrangement")
-			off := g.rng.Intn(3) // rows cut away in front, so that the physical range does not start at 0
-			tot := off + n + g.rng.Intn(2)
-			p := make([]int64, tot)
-			fl := make([]string, tot)
-			bo := make([]bool, tot)
-			for i := range p {
-				p[i] = int64(100 + i)
-				fl[i] = itoa(i) + ".5"
-				bo[i] = g.rng.Intn(2) == 0
+			for variant := 0; variant < 4; variant++ {
+				if n > 4 && variant != g.rng.Intn(4) {
+					continue // 4 rows: every variant; above: one at random
+				}
+				g.begin("index arrangement")
+				off := variant % 2 * (1 + g.rng.Intn(2)) // rows cut away in front, so that the physical range does not start at 0 - or none
+				tot := off + n + variant/2               // and a row cut away behind - or none
+				p := make([]int64, tot)
+				fl := make([]string, tot)
+				bo := make([]bool, tot)
+				for i := range p {
+					p[i] = int64(100 + i)
+					fl[i] = itoa(i) + ".5"
+					bo[i] = g.rng.Intn(2) == 0
+				}
+				for i, v := range perm {
+					p[off+i] = int64(v)
+				}
+				f := g.do(Step{Op: "New", Recv: -1, HasOrder: true, ColOrder: bsList([]string{"P", "F", "T"}),
+					Data: []ColData{{Name: toBS("P"), Kind: "int", Ints: p}, {Name: toBS("F"), Kind: "float", Floats: fl}, {Name: toBS("T"), Kind: "bool", Bools: bo}}})
+				if tot != n {
+					f = g.do(Step{Op: "Slice", Recv: f, A: off, B: off + n})
+				}
+				srt := g.do(Step{Op: "Sort", Recv: f, Orders: []Order{{Col: toBS("P"), Rev: g.rng.Intn(4) == 0}}})
+				cl := Clause{K: "leaf", Col: toBS("P"), CmpK: "str", Cmp: "<", Arg: &Val{T: "int", I: 50}}
+				g.do(Step{Op: "Filter", Recv: srt, Clause: &cl})
+				rb := g.do(Step{Op: "Rebuild", Recv: srt})
+				g.do(Step{Op: "Equals", Recv: srt, Other: rb})
+				g.do(Step{Op: "Equals", Recv: rb, Other: srt})
+				g.do(Step{Op: "Equals", Recv: srt, Other: f})
+				g.do(Step{Op: "Equals", Recv: f, Other: srt})
+				g.do(Step{Op: "SliceObs", Recv: -1, A: 1}) // every member is now read again through Slice()
+				for _, c := range []string{"P", "F", "T"} {
+					g.do(Step{Op: "View", Recv: srt, Dst: toBS(c)})
+				}
+				g.do(Step{Op: "Select", Recv: srt, Cols: bsList([]string{"F", "P"})})
+				g.do(Step{Op: "Sort", Recv: srt, Orders: []Order{{Col: toBS("F")}}})
+				g.do(Step{Op: "SliceObs", Recv: -1, A: 0})
+				g.end()
 			}
-			for i, v := range perm {
-				p[off+i] = int64(v)
+		}
+	}
+}
+
+// sizeSweep: the writers buffer their output; a frame is written for every row count 1..N so that the
+// output crosses every internal buffer size at every possible phase. Each output is screened with the
+// standard library's decoder (a cheap scan that only SELECTS what is forwarded); a scenario is recorded -
+// and judged by the specification like any other - for every row count whose output looks wrong, plus a
+// sample of the others.
+func (g *Gen) sizeSweep(format string) {
+	maxN := g.pick(900, 3000)
+	forwarded := 0
+	for _, shape := range []int{0, 1} {
+		for n := 1; n <= maxN; n++ {
+			a := make([]int, n)
+			sv := make([]string, n)
+			for i := range a {
+				a[i] = i * 37 % 1000
+				sv[i] = "v" + itoa(i%97)
+				if shape == 1 {
+					sv[i] += "-padding-padding"
+				}
 			}
-			f := g.do(Step{Op: "New", Recv: -1, HasOrder: true, ColOrder: bsList([]string{"P", "F", "T"}),
-				Data: []ColData{{Name: toBS("P"), Kind: "int", Ints: p}, {Name: toBS("F"), Kind: "float", Floats: fl}, {Name: toBS("T"), Kind: "bool", Bools: bo}}})
-			if tot != n {
-				f = g.do(Step{Op: "Slice", Recv: f, A: off, B: off + n})
+			qf := qframe.New(map[string]interface{}{"A": a, "S": sv}, newqf.ColumnOrder("A", "S"))
+			var buf bytes.Buffer
+			suspicious := false
+			if format == "json" {
+				if err := qf.ToJSON(&buf); err != nil || !json.Valid(buf.Bytes()) {
+					suspicious = true
+				} else {
+					var recs []map[string]interface{}
+					if json.Unmarshal(buf.Bytes(), &recs) != nil || len(recs) != n {
+						suspicious = true
+					}
+				}
+			} else {
+				if err := qf.ToCSV(&buf); err != nil || bytes.Count(buf.Bytes(), []byte("\n")) != n+1 {
+					suspicious = true
+				}
 			}
-			srt := g.do(Step{Op: "Sort", Recv: f, Orders: []Order{{Col: toBS("P"), Rev: g.rng.Intn(4) == 0}}})
-			cl := Clause{K: "leaf", Col: toBS("P"), CmpK: "str", Cmp: "<", Arg: &Val{T: "int", I: 50}}
-			g.do(Step{Op: "Filter", Recv: srt, Clause: &cl})
-			rb := g.do(Step{Op: "Rebuild", Recv: srt})
-			g.do(Step{Op: "Equals", Recv: srt, Other: rb})
-			g.do(Step{Op: "Equals", Recv: rb, Other: srt})
-			g.do(Step{Op: "Equals", Recv: srt, Other: f})
-			g.do(Step{Op: "Equals", Recv: f, Other: srt})
-			g.do(Step{Op: "SliceObs", Recv: -1, A: 1}) // every member is now read again through Slice()
-			for _, c := range []string{"P", "F", "T"} {
-				g.do(Step{Op: "View", Recv: srt, Dst: toBS(c)})
+			if (suspicious && forwarded < 12) || n%(maxN/4) == 1 {
+				if suspicious {
+					forwarded++
+				}
+				ai := make([]int64, n)
+				ss := make([]*BS, n)
+				for i := range a {
+					ai[i], ss[i] = int64(a[i]), bsp(sv[i])
+				}
+				g.begin("size sweep")
+				f := g.do(Step{Op: "New", Recv: -1, HasOrder: true, ColOrder: bsList([]string{"A", "S"}),
+					Data: []ColData{{Name: toBS("A"), Kind: "int", Ints: ai}, {Name: toBS("S"), Kind: "string", Strs: ss}}})
+				if format == "json" {
+					g.do(Step{Op: "ToJSON", Recv: f})
+				} else {
+					g.do(Step{Op: "ToCSV", Recv: f})
+				}
+				g.end()
 			}
-			g.do(Step{Op: "Select", Recv: srt, Cols: bsList([]string{"F", "P"})})
-			g.do(Step{Op: "Sort", Recv: srt, Orders: []Order{{Col: toBS("F")}}})
-			g.do(Step{Op: "SliceObs", Recv: -1, A: 0})
-			g.end()
 		}
 	}
 }
